@@ -948,7 +948,15 @@ impl Translator {
                             self.translate_expr(right, offset_table, mono, st);
                             self.emit(st, Instr::SubFloat(Reg::Top, Reg::Top, Reg::Top))
                         }
-                        _ => unreachable!(),
+                        // the checker rejects this where it knows the type. What is left is a
+                        // generic function or a lambda used with a user type implementing `Num`
+                        other_ty => {
+                            let file = self.statics.file_db.files[st.curr_file as usize].name();
+                            st.limit_errors.push(format!(
+                                "{file}:{}: unary minus is only defined for `int` and `float`, not for `{other_ty}`",
+                                st.curr_lineno
+                            ));
+                        }
                     },
                     PrefixOp::Not => {
                         self.translate_expr(right, offset_table, mono, st);
